@@ -135,6 +135,7 @@ func NewStd(o *kernel.Outcome, tape *kernel.Tape, opt StdOptions) (*World, error
 	w.Store.PersistScopes = cfg.Bool(1, 2)
 	w.Store.PresetSubject = tape.Sub("cfg-preset-subject").Bool(1, 2)
 	w.Store.TypedNil = tape.Sub("cfg-typed-nil").Bool(1, 2)
+	w.Store.WrapSentinels = tape.Sub("cfg-wrap-sentinels").Bool(1, 2)
 	if !opt.NoCustomClaims && cfg.Bool(1, 2) {
 		// deliberately colliding names: custom data must never replace registered claims
 		w.Store.CustomClaims = map[string]any{"tenant": "t1", "iss": "https://evil.example", "sub": "mallory", "aud": []string{"evil"}, "exp": 1, "azp": "evil"}
@@ -275,6 +276,19 @@ func (w *World) makeClients() {
 		w.Store.Clients[id] = c
 		return c
 	}
+	rc := w.Tape.Sub("cfg-restrict")
+	defer func() {
+		// rarely used hooks: some clients exclude a scope from their ID tokens, some (another one) from their JWT access tokens
+		for _, id := range w.Store.SortedClientIDs() {
+			c := w.Store.Clients[id]
+			if rc.Bool(1, 3) {
+				c.DropFromID = []string{rc.Pick(oidc.ScopeEmail, oidc.ScopeProfile, oidc.ScopePhone)}
+			}
+			if rc.Bool(1, 3) {
+				c.DropFromAT = []string{rc.Pick(oidc.ScopeEmail, "api", oidc.ScopeProfile)}
+			}
+		}
+	}()
 	mk("web", op.ApplicationTypeWeb, oidc.AuthMethodBasic, []string{"https://web.sim/callback", "https://web.sim/cb2?tenant=a"})
 	mk("post", op.ApplicationTypeWeb, oidc.AuthMethodPost, []string{"https://post.sim/callback"})
 	mk("pub", op.ApplicationTypeUserAgent, oidc.AuthMethodNone, []string{"https://pub.sim/callback"})
